@@ -125,7 +125,7 @@ for _n, _c in [('time_ts_plus_dur', 't + d is the chrono result or an error when
                     claim=_c, vars=None)
 
 ALL_UNITS = ['value_arith', 'value_cmp', 'value_coll', 'macros', 'preresolved', 'interp', 'interp_vm_g0', 'interp_vm_g1', 'interp_vm_g2', 'interp_vm_g3',
-             'interp_vm_g4', 'interp_vm_g5', 'interp_vm_g6', 'interp_vm_g7', 'builtins', 'wiring', 'parser', 'json', 'compprog', 'parser_expr', 'parser_unary', 'parser_match', 'scanner', 'tokenizer', 'parser_member', 'parser_matchx', 'parser_top', 'balance', 'semantics']
+             'interp_vm_g4', 'interp_vm_g5', 'interp_vm_g6', 'interp_vm_g7', 'builtins', 'wiring', 'parser', 'json', 'compprog', 'parser_expr', 'parser_unary', 'parser_match', 'scanner', 'tokenizer', 'parser_member', 'parser_matchx', 'parser_top', 'balance', 'semantics', 'bindctx']
 
 PROPS = {
     'C02': dict(
@@ -141,10 +141,10 @@ PROPS = {
         not_covered=['integer literals above i64::MAX wrap instead of being rejected (known, unrepaired: the repair needs a negative-literal rule so that -9223372036854775808 stays expressible; no obligation is stated for that range)', 'f-string segmentation ({ } handling) beyond "scanner stays well formed"; the dispatch from the first character to the literal sub-scanners (string / bytes / number) is only covered for operators, keywords and identifiers', 'what std computes: from_str_radix, str::parse::<f64> (correct rounding), char::from_u32, UTF-8 encoding are assumed'],
     ),
     'C17': dict(
-        units=['parser', 'compprog', 'parser_expr', 'parser_unary', 'parser_member', 'parser_matchx', 'parser_top'],
+        units=['parser', 'compprog', 'parser_expr', 'parser_unary', 'parser_member', 'parser_matchx', 'parser_top', 'bindctx'],
         assumptions=['ProgramDetails::union_from is set union (HashSet, std)'],
         level_text="The identifier set of every node built under contract is proved to be exactly the union of its children's sets plus, for an identifier primary, its own name: add_ident, the compile! sites of the binary levels, append_result / consume_child / from_children*, the ternary (all three operands), match (scrutinee, every pattern, every arm), index expressions, list literals, calls (receiver and every argument) and check_for_const (keeps the set).",
-        not_covered=['filter_from_bindings / IdentFilterIter', 'variables bound by macros (v in [1].map(v, ..)) are reported as parameters: a superset, allowed by the statement'],
+        not_covered=['filter_from_bindings / IdentFilterIter (BindContext::is_bound IS under contract: bound as a variable, function or macro)', 'variables bound by macros (v in [1].map(v, ..)) are reported as parameters: a superset, allowed by the statement'],
     ),
     'C18': dict(
         units=['parser', 'parser_expr', 'parser_unary', 'parser_member', 'parser_matchx', 'scanner', 'tokenizer', 'parser_top'],
@@ -195,9 +195,9 @@ PROPS = {
         assumptions=[],
     ),
     'C12': dict(
-        units=['interp', 'macros', 'interp_vm_g0', 'interp_vm_g7', 'json'],
+        units=['interp', 'macros', 'interp_vm_g0', 'interp_vm_g7', 'json', 'bindctx'],
         not_covered=['that 32 frames fit the default stack (a machine resource)', 'JSON arrays / objects (the recursive conversion uses iterator adapters: those two arms are dropped; JSON scalars ARE under contract)',
-                     'rebinding / re-adding replaces: HashMap::insert semantics of BindContext / CelContext (std)'],
+                     'CelContext program table (std HashMap); the BindContext tables ARE under contract over an abstract map (bind_* = insert-or-replace in exactly one table, get_* / is_bound look in exactly the named tables): the std HashMap behind it is assumed'],
         assumptions=['ScopedCounter RAII (the increment is undone on scope exit)'],
     ),
     'C10': dict(
